@@ -193,7 +193,7 @@ def gen_index_history(tape, high, maxlen=40):
 def run_hist(tape, out):
     import_elfi()
     from elfi.utils import get_sub_seed
-    high = tape.choice('high', [2 ** 31, 2 ** 31, 1000, 50, 12])
+    high = tape.choice('high', [2 ** 31, 2 ** 31, 1000, 50, 12, 2 ** 32, 2 ** 16 + 1])
     seed = tape.int('seed', 0, 2 ** 31 - 1)
     pattern, seq = gen_index_history(tape, high)
     ref = ref_values(seed, high, max(seq) + 1)
